@@ -23,8 +23,9 @@ EPS = 1e-6
 
 
 class Gateway:
-    def __init__(self, split_client: Callable[[bytearray], list[bytes]], cuts: set[int] | None = None, bytewise: bool = False):
-        self.reader = memstream.new_reader(limit=2**22)
+    def __init__(self, split_client: Callable[[bytearray], list[bytes]], cuts: set[int] | None = None, bytewise: bool = False, limit: int | None = None):
+        # `limit`: the StreamReader limit the client asked for in open_connection(); None = asyncio's default (64 KiB)
+        self.reader = memstream.new_reader(limit=limit if limit is not None else 2**16)
         self.writer = memstream.MemWriter(on_write=self._on_write)
         self.split_client = split_client
         self.cbuf = bytearray()
@@ -157,14 +158,18 @@ class GatewayHub:
 
     async def open_connection(self, host: Any = None, port: Any = None, **kw: Any) -> tuple[Any, Any]:
         self.attempts += 1
+        self.last_kwargs = dict(kw)
         g = self.factory(self.attempts)
         if isinstance(g, BaseException):
             raise g
+        if "limit" in kw and kw["limit"] is not None:
+            # honour the buffer limit the production code requested
+            g.reader._limit = kw["limit"]  # type: ignore[attr-defined]
         self.connections.append(g)
         return g.reader, g.writer
 
     async def open_unix_connection(self, path: Any = None, **kw: Any) -> tuple[Any, Any]:
-        return await self.open_connection(path, None)
+        return await self.open_connection(path, None, **kw)
 
     def __enter__(self) -> "GatewayHub":
         self._orig = (asyncio.open_connection, asyncio.open_unix_connection)
